@@ -1,6 +1,7 @@
 import XMT.Drv.Util
 import XMT.Drv.C01
 import XMT.Batch
+import XMT.Drv.C15
 namespace XMT.Drv.C03
 open XMT XMT.Drv XMT.Batch
 
@@ -28,6 +29,8 @@ def handle (args : List String) : String :=
       match unpack 8 n with
       | .ok ps => if ps.isEmpty then "." else " ".intercalate (ps.map XMT.Drv.C01.showPkt)
       | .error e => "err " ++ XMT.Drv.C01.showPErr e
+  -- the server's reply path when proxying: the routing model of C15 (XMT/Route.lean)
+  | "srv" :: rest => XMT.Drv.C15.handle ("srv" :: rest)
   | _ => "bad-op"
 
 end XMT.Drv.C03
